@@ -120,6 +120,22 @@ static struct LocalPoint *PointData_at(struct PointData *pd, PointID id)
   return &pd->e[id].second;
 }
 
+/* ---- the vector of adjusted unknowns `const Vec& x = least_squares->unknowns()`: ASSUMED contract of Vec::operator()(n) const
+   (index arithmetic verified in unit matvec_index): defined for 1 <= n <= dim (obligation at the call site); the element is a
+   function of n; ASSUMED: a finite number (a correction in mm / cc computed by the adjustment) */
+struct Vec { int dim; };
+double __CPROVER_uninterpreted_xv(int);
+#define XV(k) __CPROVER_uninterpreted_xv(k)
+int gv_xreads; /* ghost: number of element reads */
+static double gvs_x(const struct Vec *v, int n)
+{
+  __CPROVER_assert(1 <= n && n <= v->dim, "x(n): 1 <= n <= dim (the index names an unknown of this adjustment)");
+  gv_xreads++;
+  double r = XV(n);
+  __CPROVER_assume(-1e300 <= r && r <= 1e300);
+  return r;
+}
+
 /* prototypes of extracted functions (definition order in the generated file is the unit.json order) */
 bool LocalPoint_active_xy(const struct LocalPoint *self);
 bool StandPoint_test_orientation(const struct StandPoint *self);
@@ -149,6 +165,20 @@ int gv_k0;
 struct Unknown gv_u0;
 #define K0_SAME(N) ((N)->unknowns_[gv_k0].pid == gv_u0.pid && (N)->unknowns_[gv_k0].type == gv_u0.type && (N)->unknowns_[gv_k0].ori == gv_u0.ori)
 #define K0_OK(N) (0 <= gv_k0 && gv_k0 < (N)->pocet_neznamych_ && K0_SAME(N))
+
+/* refine_approx_coordinates: the unknown i and what it belongs to */
+#define UTYPE(N, i) ((N)->unknowns_[(i)-1].type)
+#define UPID(N, i) ((N)->unknowns_[(i)-1].pid)
+#define UORI(N, i) ((N)->unknowns_[(i)-1].ori)
+#define UPT(N, i) (&(N)->PD->e[UPID(N, i)].second)
+#define CMAX 1e9
+#define FIN(v, m) (-(m) <= (v) && (v) <= (m)) /* finite and bounded (false for NaN) */
+#define SAME_PT_BUT_XY(p, q) ((p).z_ == (q).z_ && (p).bz_ == (q).bz_ && (p).ix_ == (q).ix_ && (p).iy_ == (q).iy_ && (p).iz_ == (q).iz_ && (p).pst_ == (q).pst_)
+#define SAME_PT_BUT_Z(p, q) ((p).x_ == (q).x_ && (p).y_ == (q).y_ && (p).bxy_ == (q).bxy_ && (p).ix_ == (q).ix_ && (p).iy_ == (q).iy_ && (p).iz_ == (q).iz_ && (p).pst_ == (q).pst_)
+struct StandPoint gv_sp0; /* ghost: the stand point of unknown i before the call */
+int gv_kp;               /* ghost: an arbitrary point of the map, chosen by the harness */
+struct LocalPoint gv_p0; /* ghost: the point of unknown i before the call (recorded by the harness) */
+struct PointData gv_pd0; /* ghost: the whole map before the call */
 
 /* row of the design matrix as a set of indices */
 #define HASIX1(L, k, ix) ((L)->size > (k) && (L)->index[k] == (ix))
@@ -234,6 +264,44 @@ GV_CANARY("LocalNetwork_pe_fill_point entry");
 struct Unknown unknown; /* `Unknown unknown;` is declared in front of the walks: its value on entry is whatever the last element left */
 //@ end
 
+/* ---- (5) refine_approx_coordinates: the correction of unknown i is added to the coordinate / orientation it belongs to -------- */
+/* LocalNetwork::refine_approx_coordinates() walks i = 1..unknowns_count() over the table unknowns_ that (3a)/(3b) filled: the adjusted
+   unknown x(i) is a correction in mm (coordinates) or cc (orientation).  From the mathematics:
+     'X' of point b (i == b.index_x()):  x_b += x(i)/1000 and, in the same step, y_b += x(b.index_y())/1000 -- the y correction is
+                                         the unknown the point's OWN index_y names (index_y == index_x + 1 only when one observation
+                                         assigned both; before commit f0c109c the code read x(i+1)); y unchanged if index_y == 0;
+     'Z':  z_b += x(i)/1000;     'R':  orientation [gon] += x(i)/10000, stored in radians;     'Y': handled with 'X'.
+   Stated precondition (what (3a)/(3b) establish, F1/F2): the entry i names a point of the map whose index of that type is i
+   (R: a stand point with an orientation value); indices are 0 or within 1..n; x has n = unknowns_count() elements. */
+//@ contract LocalNetwork_refine_unknown
+__CPROVER_requires(NET_OK(self) && __CPROVER_r_ok(x__p, sizeof(*x__p)) && x__p->dim == self->pocet_neznamych_ && 1 <= i && i <= self->pocet_neznamych_)
+__CPROVER_requires(gv_exc == 0 && gv_xreads == 0)
+__CPROVER_requires((UTYPE(self, i) == 'X' || UTYPE(self, i) == 'Z') ==> (0 <= UPID(self, i) && UPID(self, i) < NPTS &&
+                   FIN(UPT(self, i)->x_, CMAX) && FIN(UPT(self, i)->y_, CMAX) && FIN(UPT(self, i)->z_, CMAX)))
+__CPROVER_requires(UTYPE(self, i) == 'X' ==> (UPT(self, i)->ix_ == i && IX_OK(self, UPT(self, i)->iy_)))
+__CPROVER_requires(UTYPE(self, i) == 'Z' ==> UPT(self, i)->iz_ == i)
+__CPROVER_requires(UTYPE(self, i) == 'R' ==> (__CPROVER_rw_ok(UORI(self, i), sizeof(struct StandPoint)) && UORI(self, i)->test_or && FIN(UORI(self, i)->attr_or, 1e6)))
+__CPROVER_assigns(__CPROVER_object_whole(self->PD), gv_exc, gv_xreads;
+                  UTYPE(self, i) == 'R': UORI(self, i)->attr_or, UORI(self, i)->test_or)
+__CPROVER_ensures(gv_exc == 0)
+/* X: both plane coordinates of the point, each from the unknown its own index names */
+__CPROVER_ensures(UTYPE(self, i) == 'X' ==> UPT(self, i)->x_ == gv_p0.x_ + XV(i) / 1000)
+__CPROVER_ensures((UTYPE(self, i) == 'X' && gv_p0.iy_ != 0) ==> UPT(self, i)->y_ == gv_p0.y_ + XV(gv_p0.iy_) / 1000)
+__CPROVER_ensures((UTYPE(self, i) == 'X' && gv_p0.iy_ == 0) ==> UPT(self, i)->y_ == gv_p0.y_)
+__CPROVER_ensures(UTYPE(self, i) == 'X' ==> (UPT(self, i)->bxy_ && SAME_PT_BUT_XY(*UPT(self, i), gv_p0) && gv_xreads == (gv_p0.iy_ != 0 ? 2 : 1)))
+/* Z */
+__CPROVER_ensures(UTYPE(self, i) == 'Z' ==> (UPT(self, i)->z_ == gv_p0.z_ + XV(i) / 1000 && UPT(self, i)->bz_ && SAME_PT_BUT_Z(*UPT(self, i), gv_p0) && gv_xreads == 1))
+/* R: gon = rad * R2G, + cc/10000, back to radians */
+__CPROVER_ensures(UTYPE(self, i) == 'R' ==> (UORI(self, i)->attr_or == (gv_sp0.attr_or * R2G + XV(i) / 10000) * G2R && UORI(self, i)->test_or && gv_xreads == 1))
+/* nothing else moves: every other point (chosen by the harness: gv_kp) keeps every field; Y and unused entries change nothing */
+__CPROVER_ensures((0 <= gv_kp && gv_kp < NPTS && !((UTYPE(self, i) == 'X' || UTYPE(self, i) == 'Z') && gv_kp == UPID(self, i))) ==>
+                  (self->PD->e[gv_kp].second.x_ == gv_pd0.e[gv_kp].second.x_ && self->PD->e[gv_kp].second.y_ == gv_pd0.e[gv_kp].second.y_ &&
+                   self->PD->e[gv_kp].second.bxy_ == gv_pd0.e[gv_kp].second.bxy_ && SAME_PT_BUT_XY(self->PD->e[gv_kp].second, gv_pd0.e[gv_kp].second)))
+__CPROVER_ensures((UTYPE(self, i) != 'X' && UTYPE(self, i) != 'Z' && UTYPE(self, i) != 'R') ==> gv_xreads == 0)
+//@ entry LocalNetwork_refine_unknown
+GV_CANARY("LocalNetwork_refine_unknown entry");
+//@ end
+
 //@ harness
 #include "pe_stmt_gen.h" /* (2) and (3a): generated by pe_pre.py through gv/extract.py:extract_function */
 
@@ -290,6 +358,24 @@ void h_fill_point(void)
   __CPROVER_assume(0 <= k && k < NPTS);
   LocalNetwork_pe_fill_point(&gv_N, &gv_pd.e[k]);
   GV_CANARY("h_fill_point end");
+}
+
+void h_refine_unknown(void)
+{
+  mk_net();
+  struct Vec x;
+  int i;
+  /* memory only: the entry i of the table may name the harness's stand point */
+  if (1 <= i && i <= gv_N.pocet_neznamych_) {
+    if (gv_N.unknowns_[i - 1].type == 'R') gv_N.unknowns_[i - 1].ori = &gv_sp;
+    int id = gv_N.unknowns_[i - 1].pid;
+    if (0 <= id && id < NPTS) gv_p0 = gv_pd.e[id].second;
+  }
+  gv_pd0 = gv_pd;
+  gv_sp0 = gv_sp;
+  gv_xreads = 0;
+  LocalNetwork_refine_unknown(&gv_N, &x, i);
+  GV_CANARY("h_refine_unknown end");
 }
 
 /* ---- (4) composition: reset walk, fresh LocalLinearization, one linearisation step -----------------------------------------------
